@@ -8,6 +8,7 @@ os.chdir(HERE)
 args = sys.argv[1:]
 tier = args[args.index("--tier") + 1] if "--tier" in args else "quick"
 only = args[args.index("--only") + 1] if "--only" in args else None
+outfile = args[args.index("--out") + 1] if "--out" in args else "selftest/RESULTS.md"
 FIX_PROP = {"F1": "C05", "F2": "C06", "F3": "C16", "F4": "C19", "F5": "C20", "F6": "C20", "F7": "C17", "F8": "C20", "F9": "C09"}
 rows = []
 jobs = []
@@ -29,8 +30,8 @@ for pid, name, patch, summ in jobs:
     print(pid, name, verdict, "%.0fs" % (time.time() - t0), flush=True)
 st = subprocess.run(["git", "-C", os.environ.get("SEEDED_REPO", "/repo"), "status", "--porcelain", "--untracked-files=no"], stdout=subprocess.PIPE, text=True).stdout
 assert st.strip() == "", "/repo not clean after run: " + st
-with open("selftest/RESULTS.md", "w") as fh:
-    fh.write("# Seeded changes vs checks (tier=%s)\n\nEach row: the change was applied to /repo (`git apply`), the owning property's check was run, /repo was restored.\n\n" % tier)
+with open(outfile, "w") as fh:
+    fh.write("# Seeded changes vs checks (tier=%s, VERIF_SEED=%s)\n\nEach row: the change was applied to a checkout of /repo (`git apply`), the owning property's check was run, the checkout was restored.\n\n" % (tier, os.environ.get("VERIF_SEED", "0")))
     fh.write("| property | change | verdict | violations printed | first witness | what was changed |\n|---|---|---|---|---|---|\n")
     for pid, name, verdict, nv, what, summ, dt in rows:
         fh.write("| %s | %s | %s | %d | %s | %s |\n" % (pid, name, verdict, nv, what.replace("|", "\\|"), summ.replace("|", "\\|").replace("\n", " ")))
